@@ -8,10 +8,14 @@ Bind:  the same fillings (and random contexts) through the real
 """
 from __future__ import annotations
 
+import ast
+import hashlib
 import itertools
 import json
 import os
+import re
 import time
+import warnings
 
 from . import common, gen, project, tlc
 from .common import cps
@@ -53,12 +57,56 @@ def data_module(d):
     )
 
 
+_LAMBDA_ID = re.compile(r"(?:_lambda_|VAR_LOOP|_)[0-9a-f]{32}")
+
+
+def code_shape(text):
+    """the emitted Python with every constant abstracted (and the random lambda ids numbered in
+    order of appearance): what a literal payload may NOT change"""
+    from vyxal.transpile import transpile
+
+    try:
+        code = transpile(text)
+    except RecursionError:
+        return "transpile-raised:RecursionError"
+    except Exception as e:  # noqa: BLE001
+        return "transpile-raised:" + type(e).__name__
+    ids = {}
+    code = _LAMBDA_ID.sub(lambda m: "_rid_%d" % ids.setdefault(m.group(0), len(ids)), code)
+    try:
+        with warnings.catch_warnings():
+            warnings.simplefilter("ignore")
+            tree = ast.parse(code)
+    except (SyntaxError, ValueError):
+        return "does-not-compile"
+    except RecursionError:
+        return "too-deep"
+    for node in ast.walk(tree):
+        if isinstance(node, ast.Constant):
+            node.value = 0
+            node.kind = None
+    try:
+        return hashlib.sha1(ast.dump(tree).encode("utf-8")).hexdigest()[:16]
+    except RecursionError:
+        return "too-deep"
+
+
 def observe(case):
     a, b, meta = case
     _, ta, ea = project.parse_text(a)
     _, tb, eb = project.parse_text(b)
     return {"op": "lit", "a": cps(a), "b": cps(b),
-            "ta": ta or [], "tb": tb or [], "ea": ea or "", "eb": eb or ""}
+            "ta": ta or [], "tb": tb or [], "ea": ea or "", "eb": eb or "",
+            "ca": code_shape(a), "cb": code_shape(b)}
+
+
+# contexts in which the literal is the LAST thing of the program, so that it may be left unclosed
+END_CONTEXTS = ["□", "1 □", "[1|□", "λ□", "⟨1|□", "(n|□", "{1|□", "@f|□", "v□", "₌+□", "[(λ⟨□", "1[2|3]□", "ƛ'µ□"]
+
+
+def open_literal(kind, p):
+    return {"string": "`" + p, "twochar": "‛" + p, "char": "\\" + p, "cstring": "«" + p, "cnumber": "»" + p,
+            "cpnumber": "⁺" + p, "comment": "#" + p}[kind]
 
 
 def cases(tier, rng, d):
@@ -81,6 +129,16 @@ def cases(tier, rng, d):
                     a = ctx.replace(hole, literal(kind, p))
                     b = ctx.replace(hole, literal(kind, "a" * n))
                     out.append((a, b, {"ctx": ctx, "kind": kind, "payload": p}))
+    # literals left unclosed at the end of the program (a two-character string may then be shorter)
+    for ctx in END_CONTEXTS:
+        for kind in KINDS:
+            top = 1 if kind in ("char", "cpnumber") else 2
+            for n in range(1, top + 1):
+                for p in ("".join(t) for t in itertools.product(alpha, repeat=n)):
+                    if n == 2 and tier == "quick" and kind != "twochar" and rng.random() < 0.8:
+                        continue
+                    out.append((ctx.replace("□", open_literal(kind, p)), ctx.replace("□", open_literal(kind, "a" * n)),
+                                {"ctx": ctx + " (unclosed)", "kind": kind, "payload": p}))
     # random contexts from the structure grammar, hole in a random literal slot
     g = gen.Gen(rng, atoms=list("+-*:_$W=<L"), literals=("1", "2", hole), strings=False)
     nr = 600 if tier == "quick" else 20000
